@@ -54,9 +54,12 @@ def verify_function(qualname: str, repo_root=None, keep_models=False, shard=None
         res["reason"] = f"unsupported: {exc}"
         res["seconds"] = time.time() - t0
         return res
-    except Exception as exc:  # internal error of the checker: never a violation
-        res["status"] = "error"
-        res["reason"] = "".join(traceback.format_exception_only(type(exc), exc)).strip()
+    except Exception as exc:
+        # the symbolic executor could not evaluate this body (a construct whose value model is missing, e.g. id() used as
+        # a dictionary key): the function is outside the verifier's reach as it stands - undecided, handed to the bounded
+        # stand-in; never a violation, and reported (with the traceback) in the evidence
+        res["status"] = "undecided"
+        res["reason"] = "unsupported: executor failed on this body: " + "".join(traceback.format_exception_only(type(exc), exc)).strip()
         res["traceback"] = traceback.format_exc()
         res["seconds"] = time.time() - t0
         return res
